@@ -573,3 +573,105 @@ impl OpSource for NearLimit {
         self.inner.next(v)
     }
 }
+
+// ------------------------------------------------------------------------------------------------
+// resize histories across several exclusive borrows (C03, account backing)
+
+/// op line growing the byte container at `path` by `n` bytes (`None` if it is not a byte container)
+pub fn grow_line(shape: &Shape, model: &Val, path: &[Step], n: usize) -> Option<String> {
+    let (sh, va) = get_at(shape, model, path)?;
+    let p = print_path(path);
+    match (sh, va) {
+        (Shape::Rem, Val::Rem(b)) => Some(format!("set_len {p} {}", b.len() + n)),
+        (Shape::List(e, _), Val::Seq(es)) if e.fixed_size() == 1 => {
+            let items: Vec<Vec<u8>> = (0..n).map(|i| vec![(i % 251) as u8]).collect();
+            Some(format!("insert_all {p} {} {}", es.len() / 2, hexlist(&items)))
+        }
+        _ => None,
+    }
+}
+
+/// op line shrinking the byte container at `path` by (up to) `n` bytes
+pub fn shrink_line(shape: &Shape, model: &Val, path: &[Step], n: usize) -> Option<String> {
+    let (sh, va) = get_at(shape, model, path)?;
+    let p = print_path(path);
+    match (sh, va) {
+        (Shape::Rem, Val::Rem(b)) => Some(format!("set_len {p} {}", b.len().saturating_sub(n))),
+        (Shape::List(e, _), Val::Seq(es)) if e.fixed_size() == 1 => {
+            let n = n.min(es.len());
+            let lo = (es.len() - n) / 2;
+            Some(format!("remove_range {p} {lo} {}", lo + n))
+        }
+        _ => None,
+    }
+}
+
+/// Grow / shrink one byte container by random amounts, ENDING THE EXCLUSIVE BORROW (`reborrow`) after
+/// every resize — `resize_delta` is positive, zero and negative at the moments a new top wrapper is made —
+/// with a few random ops in between.
+pub struct BorrowHistory {
+    pub path: Vec<Step>,
+    pub rng: Rng,
+    pub rounds: usize,
+    pub step: usize,
+    pub inner: RandGen,
+}
+
+impl OpSource for BorrowHistory {
+    fn next(&mut self, v: &GenView) -> Option<String> {
+        let round = self.step / 3;
+        let phase = self.step % 3;
+        self.step += 1;
+        if round >= self.rounds {
+            return None;
+        }
+        match phase {
+            0 => {
+                let room = v.cap.saturating_sub(v.len);
+                let grown = v.len + crate::access::MAX_INCREASE > v.cap; // len > orig
+                let r = &mut self.rng;
+                let line = if round % 2 == 0 || !grown {
+                    let n = match r.below(5) {
+                        0 => room,
+                        1 => room.min(1),
+                        2 => room / 2,
+                        _ => r.below(room.min(3000) as u64 + 1) as usize,
+                    };
+                    grow_line(v.shape, v.model, &self.path, n)
+                } else {
+                    let n = match r.below(4) {
+                        0 => 1,
+                        1 => 100_000, // everything
+                        _ => r.below(6000) as usize,
+                    };
+                    shrink_line(v.shape, v.model, &self.path, n)
+                };
+                Some(line.unwrap_or_else(|| "touch .".into()))
+            }
+            1 => Some("reborrow".into()),
+            _ => {
+                let l = self.inner.next(v).unwrap_or_else(|| "touch .".into());
+                Some(l)
+            }
+        }
+    }
+}
+
+/// `grow`, `reborrow`, then a random history (scratch histories of the account-pair swap cases)
+pub struct GrowThen {
+    pub path: Vec<Step>,
+    pub grow: usize,
+    pub step: usize,
+    pub inner: RandGen,
+}
+
+impl OpSource for GrowThen {
+    fn next(&mut self, v: &GenView) -> Option<String> {
+        self.step += 1;
+        match self.step {
+            1 => Some(grow_line(v.shape, v.model, &self.path, self.grow).unwrap_or_else(|| "touch .".into())),
+            2 => Some("reborrow".into()),
+            _ => self.inner.next(v),
+        }
+    }
+}
